@@ -56,7 +56,17 @@ pub struct Exchange {
 fn safe_path() -> BoxedStrategy<String> {
     let ch = prop_oneof![10 => (b'a'..=b'z').prop_map(|c| (c as char).to_string()), 2 => (b'A'..=b'Z').prop_map(|c| (c as char).to_string()), 3 => (b'0'..=b'9').prop_map(|c| (c as char).to_string()),
         2 => proptest::sample::select(vec!["-", "_", ".", "~", ";", "=", "@", ":", "+", ","]).prop_map(|s| s.to_string()), 1 => (0x21u8..0x7f).prop_map(|b| format!("%{b:02X}"))];
-    let seg = proptest::collection::vec(ch, 1..8).prop_map(|v| v.concat()).prop_map(|s| if s == "." || s == ".." { "dot".to_string() } else { s });
+    let seg = proptest::collection::vec(ch, 1..8).prop_map(|v| v.concat()).prop_map(|s| {
+        // no dot segments, in any spelling: "." / ".." and their percent-encoded forms are removed by
+        // every conforming URL processor (RFC 3986 5.2.4 / 6.2.2), so "path preserved" is not decidable
+        // byte-for-byte on them
+        let decoded = s.replace("%2E", ".").replace("%2e", ".");
+        if decoded == "." || decoded == ".." {
+            "dot".to_string()
+        } else {
+            s
+        }
+    });
     prop_oneof![1 => Just(String::new()), 1 => Just("/".to_string()), 2 => Just("/ipp/print".to_string()), 5 => proptest::collection::vec(seg, 1..4).prop_map(|v| format!("/{}", v.join("/")))].boxed()
 }
 
@@ -268,7 +278,7 @@ pub fn judge_exchange(e: &Exchange, p: &Probe) -> Judge {
     };
     let script = Script { status: 200, framing: framing.clone(), body: body.clone(), frags: e.frags.clone(), cut_after: None, rst: false, stall: Duration::ZERO, extra_headers: vec![], gap: Duration::ZERO };
     let s2 = script.clone();
-    let server = Server::start(Arc::new(move |_r| s2.clone()), None).map_err(|e| Fail::new("infra/server", format!("{e}")))?;
+    let server = thread_server(Arc::new(move |_r| s2.clone())).map_err(|e| Fail::new("infra/server", format!("{e}")))?;
     let (uri, target, hostport) = target_uri(e, server.port);
     let (req, expected_body) = build_request(&e.req, e.async_payload);
     let cfg = ClientCfg { uri: &uri, headers: &e.headers, auth: e.auth.as_ref(), timeout: e.timeout_ms.map(Duration::from_millis) };
@@ -377,7 +387,7 @@ fn simple_response(id: u32, marker: &str) -> Vec<u8> {
 
 fn one_shot(script: Script, async_client: bool, timeout: Option<Duration>) -> Result<(SendOutcome, Vec<Recorded>, Duration), Fail> {
     let s2 = script.clone();
-    let server = Server::start(Arc::new(move |_r| s2.clone()), None).map_err(|e| Fail::new("infra/server", format!("{e}")))?;
+    let server = thread_server(Arc::new(move |_r| s2.clone())).map_err(|e| Fail::new("infra/server", format!("{e}")))?;
     let uri = format!("http://127.0.0.1:{}/ipp/print", server.port);
     let cfg = ClientCfg { uri: &uri, headers: &[], auth: None, timeout };
     let t0 = Instant::now();
@@ -717,6 +727,42 @@ pub fn run(ctx: &Ctx) {
     run_concurrency(ctx);
 }
 
+/// A TCP port that is bound (so nobody else gets it) but not listening (so connecting is refused).
+pub struct BoundPort {
+    fd: i32,
+    pub port: u16,
+}
+
+impl BoundPort {
+    pub fn new() -> std::io::Result<BoundPort> {
+        unsafe {
+            let fd = libc::socket(libc::AF_INET, libc::SOCK_STREAM, 0);
+            if fd < 0 {
+                return Err(std::io::Error::last_os_error());
+            }
+            let mut addr: libc::sockaddr_in = std::mem::zeroed();
+            addr.sin_family = libc::AF_INET as u16;
+            addr.sin_addr.s_addr = u32::from_ne_bytes([127, 0, 0, 1]);
+            addr.sin_port = 0;
+            let mut len = std::mem::size_of::<libc::sockaddr_in>() as u32;
+            if libc::bind(fd, &addr as *const _ as *const libc::sockaddr, len) != 0 || libc::getsockname(fd, &mut addr as *mut _ as *mut libc::sockaddr, &mut len) != 0 {
+                let e = std::io::Error::last_os_error();
+                libc::close(fd);
+                return Err(e);
+            }
+            Ok(BoundPort { fd, port: u16::from_be(addr.sin_port) })
+        }
+    }
+}
+
+impl Drop for BoundPort {
+    fn drop(&mut self) {
+        unsafe {
+            libc::close(self.fd);
+        }
+    }
+}
+
 /// One exchange that fails, then a good one on the same thread.
 pub fn judge_recovery(c: &(u8, u16, Exchange, Exchange), p: &Probe) -> Judge {
     let (kind, k, failed, next) = c;
@@ -736,14 +782,17 @@ pub fn judge_recovery(c: &(u8, u16, Exchange, Exchange), p: &Probe) -> Judge {
     p.label(["recovery after an HTTP error status", "recovery after a cut (FIN)", "recovery after a cut (RST)", "recovery after a refused connection"][(kind % 4) as usize]);
     let (req, _) = build_request(&failed.req, failed.async_payload && next.async_client);
     let out = if kind % 4 == 3 {
-        // a port nobody listens on: bind, read the number, close
-        let port = std::net::TcpListener::bind("127.0.0.1:0").and_then(|l| l.local_addr()).map(|a| a.port()).map_err(|e| Fail::new("infra/port", format!("{e}")))?;
+        // a port nobody listens on, and nobody else can get while this case runs: a socket that is
+        // bound but never listens (a port that was merely bound and released can be handed to another
+        // thread's server a moment later)
+        let holder = BoundPort::new().map_err(|e| Fail::new("infra/port", format!("{e}")))?;
+        let port = holder.port;
         let uri = format!("http://127.0.0.1:{port}/ipp/print");
         let cfg = ClientCfg { uri: &uri, headers: &failed.headers, auth: failed.auth.as_ref(), timeout: Some(Duration::from_secs(20)) };
         if next.async_client { send_async(&cfg, req) } else { send_blocking(&cfg, req) }
     } else {
         let s2 = script.clone();
-        let server = Server::start(Arc::new(move |_r| s2.clone()), None).map_err(|e| Fail::new("infra/server", format!("{e}")))?;
+        let server = thread_server(Arc::new(move |_r| s2.clone())).map_err(|e| Fail::new("infra/server", format!("{e}")))?;
         let uri = format!("http://127.0.0.1:{}/ipp/print", server.port);
         let cfg = ClientCfg { uri: &uri, headers: &failed.headers, auth: failed.auth.as_ref(), timeout: Some(Duration::from_secs(20)) };
         if next.async_client { send_async(&cfg, req) } else { send_blocking(&cfg, req) }
